@@ -82,7 +82,7 @@ func NewValGrid() *ValGrid { return &ValGrid{} }
 
 func (d *ValGrid) Name() string { return "nns-validators" }
 func (d *ValGrid) Rule() string {
-	return "all strings up to length 5 (quick) / 6 (thorough) over {a,z,0,9,-,.,A,_,+,space} as names, label/total length boundaries, IPv4 octet-symbol products and all (n0,n1) pairs, IPv6 group/compression/zone/suffix products, TXT length boundaries; each candidate goes through addRecord, setRecord and (names) isAvailable/register/registerTLD; non-trivial = the reference accepts the candidate or it differs from an accepted one by a single position; distinct by (kind, string)"
+	return "all strings up to length 5 (quick) / 7 (thorough) over {a,z,0,9,-,.,A,_,+,space} as names, label/total length boundaries, IPv4 octet-symbol products and all (n0,n1) pairs, IPv6 group/compression/zone/suffix products, TXT length boundaries; each candidate goes through addRecord, setRecord and (names) isAvailable/register/registerTLD; non-trivial = the reference accepts the candidate or it differs from an accepted one by a single position; distinct by (kind, string)"
 }
 
 const (
@@ -121,7 +121,7 @@ func (d *ValGrid) Cases(tier string) []GridCase {
 	}
 	maxLen := 5
 	if tier == "thorough" {
-		maxLen = 6
+		maxLen = 7
 	}
 	alpha := []string{"a", "z", "0", "9", "-", ".", "A", "_", "+", " "}
 	var gen func(prefix string, l int)
